@@ -22,7 +22,7 @@ META = {
         "R10.3": "two-point cut points are drawn from 0..=len (inclusive upper bound = genome length)",
         "R10.4": "cut points ordered before exactly one exchange on first..second, same range on both parents, returns the first parent",
         "R10.5": "UniformXo: one random::<bool>() per position; gene at the same position from either parent",
-        "R10.6": "Bitstring::crossover_gene / crossover_segment: same index/range on both sides, exactly one swap, errors carry the address and size",
+        "R10.6": "Bitstring::crossover_gene / crossover_segment: same index/range on both sides, exactly one swap and no other in-place operation on the gene vectors, errors carry the address and size",
     },
     "trusted_base": ["rand 0.9 Rng::random_range (uniform over the given range, panics iff empty), Rng::random::<bool>()", "std slice::swap_with_slice / get_mut / mem::swap", "uecfacts driver + uecheck rule engine"],
     "assumptions": [],
@@ -167,7 +167,11 @@ def check_two_point(ctx, fid, kind):
         ctx.check(ok, "R10.4", "%s/one-exchange-on-ordered-first..second/%d" % (tag, i), detail, at,
                   bad_detail="expected exactly one exchange of the same half-open range first..second (first <= second established by the path) on both parents; extracted %s under [%s]" % (detail, cond_str(p)[:300]))
         if not is_err_return(p):
-            ctx.check(match(p.ret, Agg("Result::Ok", lambda e: e == G(0))), "R10.4", "%s/child-is-first-parent/%d" % (tag, i), short(p.ret), at)
+            # the first parent, changed in place by nothing but the exchange checked above (the walker marks a by-value
+            # argument that is mutably indexed: the only such access allowed is the exchange's own left-hand side)
+            xl = peel(exch[0][3][0], ()) if (kind == "Vec" and len(exch) == 1) else None
+            is_child = lambda e: e == G(0) or (xl is not None and e[0] == "tampered" and e[1] == G(0) and e[2] == "index_mut" and e[3] == xl[4])
+            ctx.check(match(p.ret, Agg("Result::Ok", is_child)), "R10.4", "%s/child-is-first-parent/%d" % (tag, i), short(p.ret), at)
     ctx.floor("R10.4", n_ok, 1, tag + " equal-length paths")
 
 
@@ -456,6 +460,13 @@ def check_bitstring_and_audit(ctx):
             ok = s1 is not None and s2 is not None and {s1[0], s2[0]} == {("param", 1), ("param", 2)} and s1[1] == ("param", 3) and s2[1] == ("param", 3)
         ctx.check(ok, "R10.6", "crossover_segment/swaps-exactly-range-of-both", ", ".join(short(c, 4) for c in sw), f.at())
     ctx.floor("R10.6", len(okp), 1, "crossover_segment success paths")
+    # ... and that exchange is all that happens to the two gene vectors: no other in-place operation of Vec / [T] on any path
+    from .sym import Walker
+    for nm, pp in (("crossover_segment", paths), ("crossover_gene", [p for p in ctx.cpaths(ctx.fn(BS + "crossover_gene")) if p.end != "unreachable"])):
+        extra = [c for p in pp for c in p.calls() if callee_is(c, *Walker.TAMPER) and not callee_is(c, "[T]::get_mut", "IndexMut::index_mut") and
+                 not (nm == "crossover_segment" and callee_is(c, "[T]::swap_with_slice"))]
+        ctx.check(not extra, "R10.6", nm + "/nothing-else-changes-the-genes-in-place", "in-place operations on the gene vectors: only the exchange", f.at(),
+                  bad_detail="besides the exchange the genes are changed in place by: " + ", ".join(sorted({short(c, 3) for c in extra})))
     for i, p in enumerate(erp):
         ok = any(x[0] == "agg" and path_ends(x[2], "GeneAccessRange::GeneAccessRange") and peel(x[3][0], ("Clone::clone",)) == ("param", 3) and callee_is(x[3][1], "Linear::size", "Vec::len") for x in subexprs(p.ret)) and \
             not any(callee_is(c, "[T]::swap_with_slice") for c in p.calls())
